@@ -103,6 +103,13 @@ def run_case(case, ctx):
             if gm is not None:
                 strata.add('irregular')
             ops = reads.ops_3d((nI, nX, nZ), sp.bs, rng, nops, tracecount=sp.ntr)
+            # a volume read piecewise: equal-sized neighbouring slabs one after the other
+            for ax, n_ in ((0, nI), (1, nX), (2, nZ)):
+                if n_ >= 8:
+                    lo = rng.randrange(0, n_ - 7) // 4 * 4
+                    a_, b_ = [[0, nI], [0, nX], [0, nZ]], [[0, nI], [0, nX], [0, nZ]]
+                    a_[ax], b_[ax] = [lo, lo + 4], [lo + 4, lo + 8]
+                    ops += [('read_subvolume', tuple(v for r_ in a_ for v in r_)), ('read_subvolume', tuple(v for r_ in b_ for v in r_))]
             small = nI * nX <= 150
             if small:
                 ops += [('read_inline', (i,)) for i in range(nI)] + [('read_crossline', (x,)) for x in range(nX)]
